@@ -37,7 +37,7 @@ ASSUMPTIONS = [
 ]
 BUDGET = {
     "quick": {"examples": 250, "wall_s": 100, "shards": 4},
-    "thorough": {"examples": 2500, "wall_s": 1200, "shards": 16},
+    "thorough": {"examples": 8000, "wall_s": 1500, "shards": 16},
 }
 
 WDS = ["plain", "with space", "quo'te", 'dq"x', "dol$HOME", "semi;colon", "star*", "ünï", "amp&x", "paren(x)",
